@@ -6,6 +6,8 @@ import Driver.FrameD
 import Driver.CodecD
 import Driver.CStateD
 import Driver.CLoopD
+import Driver.AdmitD
+import Driver.StackD
 
 def main (args : List String) : IO UInt32 := do
   match args with
@@ -27,6 +29,11 @@ def main (args : List String) : IO UInt32 := do
   | ["cstate-C11", "--selftest-wrong"] => Driver.CStateD.run true ["C11"]
   | ["cloop"] => Driver.runHandler (Driver.CLoopD.handler false)
   | ["cloop", "--selftest-wrong"] => Driver.runHandler (Driver.CLoopD.handler true)
+  | ["stack"] => Driver.runHandler (Driver.StackD.handler "" false)
+  | ["stack", prop] => Driver.runHandler (Driver.StackD.handler prop false)
+  | ["stack", prop, "--selftest-wrong"] => Driver.runHandler (Driver.StackD.handler prop true)
+  | ["admit"] => Driver.runHandler (Driver.AdmitD.handler false)
+  | ["admit", "--selftest-wrong"] => Driver.runHandler (Driver.AdmitD.handler true)
   | ["clog"] => Driver.runHandler (Driver.CommitLogD.handler false)
   | ["clog", "--selftest-wrong"] => Driver.runHandler (Driver.CommitLogD.handler true)
   | ["router", prop] => Driver.runHandler (Driver.RouterD.handler prop false)
